@@ -43,22 +43,25 @@ pub fn parse_csv_row(row: &str) -> Vec<String> {
     let mut rdr = csv_core::Reader::new();
     let mut bytes = row.as_bytes();
     let mut output = [0; 4096];
+    let mut field = vec![];
     loop {
         let (result, nin, nout) = rdr.read_field(bytes, &mut output);
+        field.extend_from_slice(&output[..nout]);
+        bytes = &bytes[nin..];
         let end = match result {
+            // The cell is longer than the buffer: keep reading it.
+            ReadFieldResult::OutputFull => continue,
             ReadFieldResult::InputEmpty => true,
             ReadFieldResult::Field { .. } => false,
             // The previous field consumed the whole input (i.e., the row ends with a
             // delimiter followed by an empty cell); there is no further cell.
             ReadFieldResult::End if !features.is_empty() => break,
             ReadFieldResult::End => true,
-            _ => unreachable!(),
         };
-        features.push(std::str::from_utf8(&output[..nout]).unwrap().to_string());
+        features.push(String::from_utf8(std::mem::take(&mut field)).unwrap());
         if end {
             break;
         }
-        bytes = &bytes[nin..];
     }
     features
 }
